@@ -3,8 +3,8 @@ import MuscleModel.Reflector.MirrorProofs32
 /-!
 # C04 lemmas, part 33: runs with re-filter and the reflect-to-self parameter
 
-* simple sufficient conditions for `NoOwnEntering` (the old entry carries no filter — every report is a removal; the
-  session owns no node the path's clauses match);
+* `refilterOK_of_rule`: `RefilterOK` is "the session reflects to itself or does not carry the indexing flag, and the path
+  is held" — nothing about own nodes (the re-filter traversal skips them by `GetDataCallback`'s rule);
 * `selfParam_quiescent`: the subscriber's own reflect-to-self parameter at a quiescent point, when it holds NO subscription
   or reflects to itself already: the mirror's specification does not change (the server sends no snapshot for the
   parameter, so with subscriptions present and own nodes matched the mirror would stay without them);
@@ -17,33 +17,9 @@ set_option linter.unusedVariables false
 namespace Muscle.Reflector
 open Muscle Muscle.Eng.SrvEngine
 
-/-- the old entry carries no filter: whatever the new filter drops is reported as a removal, nothing enters -/
-theorem noOwnEntering_of_unfiltered (sv : Server) (s : Sess) (fix : Bytes) {e : Entry} (he : e.filter = none)
-    (f : Option Filt) : NoOwnEntering sv s fix e f := by
-  intro v n _ _ _ _
-  rw [he]; rfl
-
-/-- the path's clauses match no node invisible to the session (in particular: none of its own) -/
-theorem noOwnEntering_of_no_own (sv : Server) (s : Sess) (fix : Bytes) (e : Entry) (f : Option Filt)
-    (h : ∀ v n, getNode sv v = some n → clausesMatch (splitSlash fix) v = true → visible s v = true) :
-    NoOwnEntering sv s fix e f := by
-  intro v n hn hcm hvis _
-  rw [h v n hn hcm] at hvis; cases hvis
-
-/-- `RefilterOK` by the rule of section 12 plus one of the two conditions above -/
 theorem refilterOK_of_rule {sid : Nat} {sv : Server} (path : Bytes) (f : Option Filt)
     (h : ∀ s, sv.sess? sid = some s → (s.reflectSelf = true ∨ s.indexingPresent = false) ∧
-      ∃ e, pmFind s.subs (adjustPrefix path (some defaultPrefix)) = some e ∧
-        (s.reflectSelf = true ∨ e.filter = none ∨
-          ∀ v n, getNode sv v = some n → clausesMatch (splitSlash (adjustPrefix path (some defaultPrefix))) v = true →
-            visible s v = true)) : RefilterOK sid sv path f := by
-  intro s hs
-  obtain ⟨h1, e, he, h2⟩ := h s hs
-  refine ⟨h1, e, he, ?_⟩
-  rcases h2 with h2 | h2 | h2
-  · exact noOwnEntering_of_reflectSelf sv h2 _ e f
-  · exact noOwnEntering_of_unfiltered sv s _ h2 f
-  · exact noOwnEntering_of_no_own sv s _ e f h2
+      (pmFind s.subs (adjustPrefix path (some defaultPrefix))).isSome = true) : RefilterOK sid sv path f := h
 
 /-! ## the reflect-to-self parameter -/
 
